@@ -16,6 +16,7 @@ name = f"{pid}-{'r2' if '/mut2/' in out else ''}{os.path.basename(out)}"
 wt = tempfile.mkdtemp(prefix="seed-", dir="/tmp")
 os.rmdir(wt)
 scratch = tempfile.mkdtemp(prefix="seed-out-", dir="/tmp")
+shutil.copy("/verif/lean/.lake/build/bin/drv", os.path.join(scratch, "drv"))
 env = dict(os.environ, PYTHONPATH=wt, PYTHONDONTWRITEBYTECODE="1")
 
 def sh(cmd, **kw):
@@ -38,7 +39,7 @@ try:
         res["demo_patched_rc"] = r.returncode
         res["demo_patched_tail"] = (r.stdout + r.stderr).strip()[-300:]
         for c in checks:
-            e2 = dict(os.environ, VERIF_REPO=wt, VERIF_OUT=scratch)
+            e2 = dict(os.environ, VERIF_REPO=wt, VERIF_OUT=scratch, VERIF_DRV=os.path.join(scratch, "drv"))
             r = sh(f"cd /verif && ./check {c} --no-audit", env=e2)
             lines = [l for l in r.stdout.splitlines() if "VIOLATION" in l or "KNOWN" in l or "seed=" in l]
             detail = ""
